@@ -33,7 +33,8 @@ def isTrue(val):
 class StringParser:
     """Utility class for complex string parsing/manipulation"""
 
-    __slots__ = ('env', 'funs', 'funArgs', 'nounset', 'text', 'index', 'end')
+    __slots__ = ('env', 'funs', 'funArgs', 'nounset', 'text', 'index', 'end',
+                 'isDelim')
 
     def __init__(self, env, funs, funArgs, nounset):
         self.env = env
@@ -65,6 +66,7 @@ class StringParser:
 
         # EOS?
         i = start = self.index
+        self.isDelim = True
         if i >= self.end:
             return None
 
@@ -73,7 +75,8 @@ class StringParser:
             self.index = i+1
             return self.text[i]
 
-        # scan
+        # scan. The result is text, even if it spells a delimiter (escaped).
+        self.isDelim = False
         tok = []
         while i < self.end:
             if self.text[i] in delim: break
@@ -127,8 +130,10 @@ class StringParser:
         """
         s = []
         tok = self.nextToken(delim)
-        while tok not in delim:
-            if tok == '"':
+        while not (self.isDelim and tok in delim):
+            if not self.isDelim:
+                s.append(tok)
+            elif tok == '"':
                 s.append(self.getString(['"'], False, subst))
             elif tok == '\'':
                 s.append(self.getSingleQuoted())
